@@ -29,16 +29,17 @@ type RefIn struct {
 }
 
 type LogIn struct {
-	N     string `json:"n"`
-	I     uint64 `json:"i"`
-	Del   bool   `json:"del"`
-	Old   string `json:"old"` // hex or ""
-	New   string `json:"new"`
-	User  string `json:"user"`
-	Email string `json:"email"`
-	Time  uint64 `json:"time"`
-	TZ    int16  `json:"tz"`
-	Msg   string `json:"msg"`
+	N      string `json:"n"`
+	I      uint64 `json:"i"`
+	Del    bool   `json:"del"`
+	Old    string `json:"old"` // hex or ""
+	New    string `json:"new"`
+	User   string `json:"user"`
+	Email  string `json:"email"`
+	Time   uint64 `json:"time"`
+	TZ     int16  `json:"tz"`
+	Msg    string `json:"msg"`
+	MsgHex string `json:"msghex"` // arbitrary message bytes (replaces msg)
 }
 
 type Case struct {
@@ -676,6 +677,13 @@ func main() {
 		dump = realos.Args[3]
 	}
 	outs := []map[string]interface{}{}
+	for ci := range cases {
+		for li := range cases[ci].Logs {
+			if h := cases[ci].Logs[li].MsgHex; h != "" {
+				cases[ci].Logs[li].Msg = string(unhex(h))
+			}
+		}
+	}
 	for _, c := range cases {
 		r := &runner{c: c, ev: []map[string]interface{}{}}
 		outs = append(outs, r.exec(dump))
